@@ -208,7 +208,7 @@ DoUnknownLong(j) ==
     /\ Go(i + 1, 0, flags, tv, AnyAt(mark, i), 1, 1, FALSE, FALSE)
 
 \* C: unknown short letter: counted bad, the rest of the bundle is still parsed
-GUnknownShort(j) == InShort /\ j = 0
+GUnknownShort(j) == InShort /\ j = 0 /\ W[P] # DASH          \* X: a '-' as a letter inside a bundle
 DoUnknownShort(j) ==
     /\ GUnknownShort(j)
     /\ Go(NextI, NextL, flags, tv, AnyAt(mark, i), 1, 1, FALSE, FALSE)
@@ -224,9 +224,10 @@ DoShortFlag(j) ==
        THEN Go(i + 2, 0, nf, nt, AnyAt(Gone(i), i + 1), 0, 0, FALSE, FALSE)
        ELSE Go(NextI, NextL, nf, nt, Gone(i), 0, 0, FALSE, FALSE)
 
-\* "-xVALUE": the rest of the word is the value, verbatim (S)
+\* "-xVALUE": the rest of the word is the value, verbatim (S) - a value that is attached to its option (here, or with
+\* '=' below) is unambiguous, so it may begin with '-' or contain '='; only a value in the NEXT word must not begin with '-' (X)
 GShortAttachedValue(j) == /\ InShort /\ j # 0 /\ ~LastLetter /\ Kind(j) \in {"int", "str"}
-                          /\ ValueOK(j, Attached) /\ ~StartsDash(Attached)
+                          /\ ValueOK(j, Attached)        \* verbatim, whatever it begins with or contains ('=', '-')
 DoShortAttachedValue(j) ==
     /\ GShortAttachedValue(j)
     /\ Go(i + 1, 0, flags, Assign(j, ValueTV(j, Attached)), Gone(i), 0, 0, FALSE, InPass(j) /\ IsReassign(j))
@@ -304,7 +305,7 @@ AbstEq       == IsLongHere /\ FW.eq
 AbstAttached == InShort /\ ~LastLetter
 GAbstract(j) == /\ j # 0 /\ Kind(j) = "abst" /\ (IsLongHere \/ InShort)
                 /\ IF AbstEq THEN TRUE
-                   ELSE IF AbstAttached THEN ~StartsDash(Attached)
+                   ELSE IF AbstAttached THEN TRUE
                    ELSE IF ~HasNext THEN TRUE
                    ELSE IF ~FN.dash THEN TRUE
                    ELSE IsKnownOptionWord(Nxt)
